@@ -48,5 +48,5 @@ ASSUMPTIONS = [
 META = {
     "technique": "Coq proofs over the same executable Q model as C01 (phase-by-phase invariants: reservation, deficit covering, greedy top-up, guarded split over inverters; permutation lemmas for the two sorts) + differential correspondence of the real distribute_power on exact rationals vs the model evaluated in Coq + property oracle on the implementation's output with a coded known-finding trigger",
     "level_text": "Machine-checked, closed under the global context, no run-time hypotheses: C02_manager_runs_the_algorithm, C02_inverter (every set-point is zero or inside its inverter's inclusion bounds and outside (1 - 1e-9) x its exclusion zone), C02_inverter_multi_exact (exact for sets with >= 2 inverters), C02_group (the total of a group's inverters is inside the aggregated battery inclusion bounds and zero or outside (1 - 1e-9) x the battery exclusion zone), C02_no_headroom (zero on every inverter of a group without SoC headroom, for every pow with pow(0)=0), C02_manager_exponent, C02_every_component_has_a_setpoint (result groups are a permutation of the input groups, set-point ids a permutation of the group's inverter ids). Correspondence and oracle as for C01; boundary requests (exactly the advertised exclusion bound, exactly the inclusion bound) are generated explicitly.",
-    "level_note": "Reuse stream: sequences of distribute_power calls on ONE list of InvBatPair and one algorithm instance whose AggregatedBatteryData / inverter objects are mutated in place between the calls (soc, soc limits, capacity, power bounds, inverter bounds); every call is judged against, and compared with the model on, the CURRENT field values. Manager stream (a third of it built through the real BatteryManager.__init__ + start()/_create_channels on real channels and LatestValueCache objects, ids whose set order differs from sorted order; fake API with per-inverter faults, acknowledge latency and a caller mutating the Request object in flight): the real BatteryManager (__new__ + injected maps, mutable fake caches, fake API client recording set_power) is driven through distribute_power over sequences of battery / inverter data updates (one side only, both, equal timestamps) and requests of both signs inside and beyond the inclusion bounds in both adjust_power modes; the C01/C02 clauses are judged on the recorded set_power calls and the Result against the LATEST data, and model/DistMgr.v (enforced bounds check + algorithm + subtraction, set order recorded from the run) is compared exactly per request. Full. Known finding: C02-exponent0-full-battery (documented behaviour, exponent 0). The unchanged tree violated C02 (findings F2, F3, split-leftover: fixed by commits fcfd05e, ccb79d8, 5d1dfb7; witnesses in corpus/C02). Trusted base as for C01.",
+    "level_note": "Reuse stream: sequences of distribute_power calls on ONE list of InvBatPair and one algorithm instance whose AggregatedBatteryData / inverter objects are mutated in place between the calls (soc, soc limits, capacity, power bounds, inverter bounds); every call is judged against, and compared with the model on, the CURRENT field values. Manager stream (a third of it built through the real BatteryManager.__init__ + start()/_create_channels on real channels and LatestValueCache objects, ids whose set order differs from sorted order; fake API with per-inverter faults, acknowledge latencies below and above an api_power_request_timeout drawn from {0.25, 0.5, 1.5, 2, 5} s (accepted = not rejected and acknowledged before the time-out), pairs of requests for disjoint battery sets in flight together on one manager (each Result judged against its own set_power calls), and a caller mutating the Request object in flight): the real BatteryManager (__new__ + injected maps, mutable fake caches, fake API client recording set_power) is driven through distribute_power over sequences of battery / inverter data updates (one side only, both, equal timestamps) and requests of both signs inside and beyond the inclusion bounds in both adjust_power modes; the C01/C02 clauses are judged on the recorded set_power calls and the Result against the LATEST data, and model/DistMgr.v (enforced bounds check + algorithm + subtraction, set order recorded from the run) is compared exactly per request. Full. Known finding: C02-exponent0-full-battery (documented behaviour, exponent 0). The unchanged tree violated C02 (findings F2, F3, split-leftover: fixed by commits fcfd05e, ccb79d8, 5d1dfb7; witnesses in corpus/C02). Trusted base as for C01.",
 }
